@@ -81,6 +81,25 @@ struct Lock<'a> {
 }
 
 impl Lock<'_> {
+    /// Never modes are compared in lock step with the strip stream (same calls, identical fault
+    /// scripts, equal results and bytes: "exactly what the strip stream would"); pass-through
+    /// modes against a fault-free mirror ("forwards every byte unchanged").
+    fn run_history(
+        &mut self,
+        mode: &str,
+        a: &mut dyn Write,
+        b: &mut dyn Write,
+        obs: Option<(&SimWriter, &SimWriter)>,
+        limit: usize,
+        finish: bool,
+    ) -> Result<(), Violation> {
+        if strips(mode) {
+            self.drive(a, b, obs, limit, finish)
+        } else {
+            self.drive_mirror(a, b, obs, limit, finish)
+        }
+    }
+
     /// Drive both systems through the history (up to `limit` ops).  `obs` = handles on the two
     /// simulated inner writers when there are any.
     fn drive(
@@ -213,6 +232,107 @@ impl Lock<'_> {
         }
         Ok(())
     }
+
+    /// Pass-through modes: "forwards every byte unchanged".  The stream under test gets the fault
+    /// script; the reference is a fault-free writer that is handed exactly the bytes the stream
+    /// reports as consumed, call by call.  Which legal count a short `write` reports, how many
+    /// inner calls or flushes are made and in what grouping is free; after every successful call
+    /// the two inner writers must hold the same bytes.
+    fn drive_mirror(
+        &mut self,
+        a: &mut dyn Write,
+        b: &mut dyn Write,
+        obs: Option<(&SimWriter, &SimWriter)>,
+        limit: usize,
+        finish: bool,
+    ) -> Result<(), Violation> {
+        let n = self.t.input.len();
+        let mut ops: Vec<Op> = self.t.ops.iter().take(limit).cloned().collect();
+        if finish {
+            ops.push(Op::WriteAll(n));
+            ops.push(Op::Flush);
+        }
+        for op in ops {
+            let buf = offered(&op, &self.t.input, self.c);
+            let flushes_before = obs.map(|(ha, _)| ha.st().flushes).unwrap_or(0);
+            let ra = apply(a, &op, buf);
+            self.stats.client_calls += 1;
+            self.ops_done += 1;
+            self.hash.str(op.name());
+            self.hash.u64(buf.len() as u64);
+            self.hash.str(&ra.show());
+            let what = format!("{}({} bytes at input offset {})", op.name(), buf.len(), self.c);
+            if self.record {
+                self.log.push(format!("{what}: stream under test -> {}", ra.show()));
+            }
+            let kind = applied_kind(&op, buf);
+            let consumed = match &ra {
+                OpResult::Panic(m) if matches!(op, Op::FmtFail(..)) && m.contains("formatting trait implementation returned an error") => {
+                    // std's own write_fmt panics when a Display impl fails although the stream
+                    // did not; a pass-through stream may forward to it
+                    self.stats.probe("failing_display_panicked_like_std");
+                    self.failed_all = true;
+                    return Ok(());
+                }
+                OpResult::Panic(m) => return Err(viol("panic", format!("{what}: {m}"))),
+                OpResult::NoProgress => return Err(viol("no-progress", format!("{what}: did not return within the step budget"))),
+                OpResult::Count(k) => {
+                    if *k > buf.len() {
+                        return Err(viol("count>len", format!("{what}: reported {k} of {} bytes", buf.len())));
+                    }
+                    *k
+                }
+                OpResult::Done if kind == Applied::Flush => {
+                    if let Some((ha, _)) = obs {
+                        if ha.st().flushes == flushes_before {
+                            return Err(viol("flush-not-forwarded", format!("{what}: the inner writer was never flushed")));
+                        }
+                    }
+                    0
+                }
+                OpResult::Done if matches!(op, Op::FmtFail(..)) => {
+                    return Err(viol("error-swallowed", format!("{what}: the Display implementation failed but the formatted write reported success")));
+                }
+                OpResult::Done => buf.len(),
+                OpResult::Err(k) if matches!(kind, Applied::Write | Applied::Vectored | Applied::Flush) => {
+                    if matches!(k, std::io::ErrorKind::Interrupted | std::io::ErrorKind::WouldBlock) {
+                        continue;
+                    }
+                    self.stats.probe("history_stopped_by_hard_error");
+                    self.failed_all = true;
+                    return Ok(());
+                }
+                OpResult::Err(_) => {
+                    // a failed write_all / write!: progress unspecified
+                    self.stats.probe("history_stopped_by_hard_error");
+                    self.failed_all = true;
+                    return Ok(());
+                }
+            };
+            if consumed > 0 {
+                if let Err(e) = b.write_all(&buf[..consumed]) {
+                    return Err(viol("harness", format!("the fault-free reference writer failed: {e}")));
+                }
+            }
+            self.c += consumed;
+            if let Some((ha, hb)) = obs {
+                let sa = ha.st();
+                let sb = hb.st();
+                if sa.accepted != sb.accepted {
+                    return Err(viol(
+                        "bytes-mismatch",
+                        format!(
+                            "after {what}: {} input bytes reported consumed so far; the inner writer holds {:?}, forwarding them unchanged gives {:?}",
+                            self.c,
+                            lossy(&sa.accepted),
+                            lossy(&sb.accepted)
+                        ),
+                    ));
+                }
+            }
+        }
+        Ok(())
+    }
 }
 
 fn expected_choice(mode: &str) -> ColorChoice {
@@ -284,7 +404,8 @@ pub fn execute(t: &Trace, stats: &mut Stats, record: bool) -> Outcome {
     lk.hash.str(&t.surface);
 
     let wa = SimWriter::new(t.faults.clone(), record);
-    let wb = SimWriter::new(t.faults.clone(), false);
+    // lock-step reference (Never modes) gets the identical script, the mirror reference none
+    let wb = SimWriter::new(if strips(mode) { t.faults.clone() } else { vec![] }, false);
     let (ha, hb) = (wa.clone(), wb.clone());
 
     let res: Result<(), Violation> = (|| {
@@ -305,7 +426,7 @@ pub fn execute(t: &Trace, stats: &mut Stats, record: bool) -> Outcome {
                         let inner: Box<dyn Write> = Box::new(wa);
                         let mut s = build(mode, inner);
                         check_mode(mode, &s, false)?;
-                        lk.drive(&mut s, b, Some((&ha, &hb)), limit, finish)?;
+                        lk.run_history(mode, &mut s, b, Some((&ha, &hb)), limit, finish)?;
                         let mut back = s.into_inner();
                         ha.st().faults.clear();
                         let _ = catch(|| back.write_all(SENTINEL));
@@ -314,7 +435,7 @@ pub fn execute(t: &Trace, stats: &mut Stats, record: bool) -> Outcome {
                         let inner: Box<dyn Write + Send> = Box::new(wa);
                         let mut s = build(mode, inner);
                         check_mode(mode, &s, false)?;
-                        lk.drive(&mut s, b, Some((&ha, &hb)), limit, finish)?;
+                        lk.run_history(mode, &mut s, b, Some((&ha, &hb)), limit, finish)?;
                         let mut back = s.into_inner();
                         ha.st().faults.clear();
                         let _ = catch(|| back.write_all(SENTINEL));
@@ -324,7 +445,7 @@ pub fn execute(t: &Trace, stats: &mut Stats, record: bool) -> Outcome {
                         let inner: &mut dyn Write = &mut wa_owned;
                         let mut s = build(mode, inner);
                         check_mode(mode, &s, false)?;
-                        lk.drive(&mut s, b, Some((&ha, &hb)), limit, finish)?;
+                        lk.run_history(mode, &mut s, b, Some((&ha, &hb)), limit, finish)?;
                         let back = s.into_inner();
                         ha.st().faults.clear();
                         let _ = catch(|| back.write_all(SENTINEL));
@@ -358,10 +479,10 @@ pub fn execute(t: &Trace, stats: &mut Stats, record: bool) -> Outcome {
                     check_mode(mode, &s, false)?;
                     if strips(mode) {
                         ref_strip = StripStream::new(Vec::new());
-                        result = lk.drive(&mut s, &mut ref_strip, None, limit, finish);
+                        result = lk.run_history(mode, &mut s, &mut ref_strip, None, limit, finish);
                         ref_vec = ref_strip.into_inner();
                     } else {
-                        result = lk.drive(&mut s, &mut ref_vec, None, limit, finish);
+                        result = lk.run_history(mode, &mut s, &mut ref_vec, None, limit, finish);
                     }
                     got = s.into_inner();
                 } else {
@@ -371,10 +492,10 @@ pub fn execute(t: &Trace, stats: &mut Stats, record: bool) -> Outcome {
                         check_mode(mode, &s, false)?;
                         if strips(mode) {
                             ref_strip = StripStream::new(Vec::new());
-                            result = lk.drive(&mut s, &mut ref_strip, None, limit, finish);
+                            result = lk.run_history(mode, &mut s, &mut ref_strip, None, limit, finish);
                             ref_vec = ref_strip.into_inner();
                         } else {
-                            result = lk.drive(&mut s, &mut ref_vec, None, limit, finish);
+                            result = lk.run_history(mode, &mut s, &mut ref_vec, None, limit, finish);
                         }
                         let back: &mut Vec<u8> = s.into_inner();
                         back.extend_from_slice(b"");
@@ -411,11 +532,11 @@ pub fn execute(t: &Trace, stats: &mut Stats, record: bool) -> Outcome {
                     let ref_bytes: Vec<u8>;
                     if strips(mode) {
                         let mut ref_strip = StripStream::new(anstream::Buffer::new());
-                        result = lk.drive(&mut s, &mut ref_strip, None, limit, finish);
+                        result = lk.run_history(mode, &mut s, &mut ref_strip, None, limit, finish);
                         ref_bytes = ref_strip.into_inner().as_bytes().to_vec();
                     } else {
                         let mut ref_buf = anstream::Buffer::new();
-                        result = lk.drive(&mut s, &mut ref_buf, None, limit, finish);
+                        result = lk.run_history(mode, &mut s, &mut ref_buf, None, limit, finish);
                         ref_bytes = ref_buf.as_bytes().to_vec();
                     }
                     let got = s.into_inner().as_bytes().to_vec();
@@ -449,10 +570,10 @@ pub fn execute(t: &Trace, stats: &mut Stats, record: bool) -> Outcome {
                     check_mode(mode, &s, false)?;
                     if strips(mode) {
                         ref_strip = StripStream::new(Vec::new());
-                        result = lk.drive(&mut s, &mut ref_strip, None, limit, finish);
+                        result = lk.run_history(mode, &mut s, &mut ref_strip, None, limit, finish);
                         ref_vec = ref_strip.into_inner();
                     } else {
-                        result = lk.drive(&mut s, &mut ref_vec, None, limit, finish);
+                        result = lk.run_history(mode, &mut s, &mut ref_vec, None, limit, finish);
                     }
                     drop(s.into_inner());
                 } else {
@@ -461,10 +582,10 @@ pub fn execute(t: &Trace, stats: &mut Stats, record: bool) -> Outcome {
                     check_mode(mode, &s, false)?;
                     if strips(mode) {
                         ref_strip = StripStream::new(Vec::new());
-                        result = lk.drive(&mut s, &mut ref_strip, None, limit, finish);
+                        result = lk.run_history(mode, &mut s, &mut ref_strip, None, limit, finish);
                         ref_vec = ref_strip.into_inner();
                     } else {
-                        result = lk.drive(&mut s, &mut ref_vec, None, limit, finish);
+                        result = lk.run_history(mode, &mut s, &mut ref_vec, None, limit, finish);
                     }
                     let _ = s.into_inner();
                 }
